@@ -278,6 +278,21 @@ def run(ctx):
             ctx.check('C01.V1', r is None, fc.name, 'record_mtime:NOW-for-ordinary-rule', fc.where(e),
                       'an output\'s own mtime is recorded only under record_mtime == 0 || restat || generator',
                       witness=None if r is None else {'blocks': r[0]})
+    # the start time is the floor of what is recorded: once it is 0 again (`record_mtime = 0`), an output older than an
+    # input is logged with its own mtime and the next scan re-runs the command.  A zero store reaches RecordCommand
+    # only in a dry run or through the store of command_start_time_
+    nz = 0
+    for e in fc.stores():
+        if is_var('record_mtime')(e['l']) and e['op'] == '=' and const_value(e.get('r')) == 0:
+            nz += 1
+            r = fc.find_path(e, lambda x: x['k'] == 'call' and x.get('name') == 'BuildLog::RecordCommand',
+                             is_blocker=lambda x: x['k'] == 'asg' and is_var('record_mtime')(x['l']) and x['op'] == '=' and
+                             mentions_field(x.get('r'), 'Edge::command_start_time_'),
+                             edge_ok=lambda b, i, s: not any(pol is True and mentions_field(a, 'BuildConfig::dry_run') for k, pol, a in fc.edge_facts(b, i)))
+            ctx.check('C01.V1', r is None, fc.name, 'record_mtime:floor-reset', fc.where(e),
+                      'record_mtime = 0 is recorded only in a dry run (otherwise the command start time is stored first)',
+                      witness=None if r is None else {'blocks': r[0]})
+    ctx.check('C01.V1', nz >= 1, fc.name, 'record_mtime:init', fc.loc, 'record_mtime starts at 0 (%d zero stores)' % nz)
     check_cc(ctx, 'C01.V1', fc, ('REC', 'NOW'), '<', effect_assigns('record_mtime', lambda r: True),
              'the recorded mtime is the newest output mtime (max-update)', 'CC5:record-max')
     se = prog.fn('Builder::StartEdge')
